@@ -13,8 +13,13 @@ tot = [0, 0, 0, 0]
 for pid in sorted(q):
     build = "full"
     sq, st = spaces(q[pid], build), spaces(t.get(pid, q[pid]), build)
-    for name in st:
-        a, b = sq.get(name), st[name]
+    for name in list(sq) + [n for n in st if n not in sq]:
+        a, b = sq.get(name), st.get(name)
+        if b is None:
+            # the stored thorough copy predates this space
+            menu = len(a.get("menu") or [])
+            print(f"| {pid} | {name.split('/',1)[1]} | {menu or '-'} | {a['max_len'] if menu else 'range'} / (thorough copy predates this space) | {a['states']:,} / – | {a['evaluations']:,} / – |")
+            continue
         menu = len(b.get("menu") or [])
         nq = a["max_len"] if (a and menu) else "-"
         nt = b["max_len"] if menu else "-"
